@@ -30,17 +30,19 @@ type Step struct {
 
 // History is a complete scenario.
 type History struct {
-	N         int    `json:"n"`         // number of clients
-	Interval  int64  `json:"interval"`  // project snapshot interval (0 = default)
-	Threshold int64  `json:"threshold"` // project snapshot threshold (0 = default)
-	Setup     string `json:"setup"`     // which containers client 0 creates first: any of "oatcn"
-	Steps     []Step `json:"steps"`
-	Seed      uint64 `json:"seed,omitempty"`
-	Flavor    string `json:"flavor,omitempty"`
-	AllOptOut bool   `json:"alloptout,omitempty"` // twin run: every client attaches WithDisableGC
-	Quiesce   int    `json:"quiesce"`             // number of final sync rounds
-	Late      []int  `json:"late,omitempty"`      // clients that are NOT attached during setup (they attach by an A step)
-	Pin       bool   `json:"pin,omitempty"`       // twin run: an extra attached client that never syncs again keeps the minimum version vector at its start, so nothing is ever purged
+	N             int    `json:"n"`         // number of clients
+	Interval      int64  `json:"interval"`  // project snapshot interval (0 = default)
+	Threshold     int64  `json:"threshold"` // project snapshot threshold (0 = default)
+	Setup         string `json:"setup"`     // which containers client 0 creates first: any of "oatcn"
+	Steps         []Step `json:"steps"`
+	Seed          uint64 `json:"seed,omitempty"`
+	Flavor        string `json:"flavor,omitempty"`
+	AllOptOut     bool   `json:"alloptout,omitempty"`     // twin run: every client attaches WithDisableGC
+	Quiesce       int    `json:"quiesce"`                 // number of final sync rounds
+	NoPresenceDoc bool   `json:"nopresencedoc,omitempty"` // the first attacher creates the document with presence disabled
+	LateNoFlag    bool   `json:"latenoflag,omitempty"`    // later attachers do not pass the presenceless flag themselves
+	Late          []int  `json:"late,omitempty"`          // clients that are NOT attached during setup (they attach by an A step)
+	Pin           bool   `json:"pin,omitempty"`           // twin run: an extra attached client that never syncs again keeps the minimum version vector at its start, so nothing is ever purged
 }
 
 // StepObs is what was observed after a step.
